@@ -8,6 +8,8 @@
 //!               given table; the j-th Resolve call answers address min(j, last) of the entry) on
 //!               `unix:%D/resolver.sock`, passed with `--resolver`
 //!     client  = pipelined | stepwise | closeearly | svcexit | slowread
+//!               sigcont: like pipelined; once the session is answered the bridge process gets SIGSTOP and
+//!               SIGCONT and must still answer another sentinel call
 //!               slowread: like pipelined, but the client starts reading 700 ms late (what the bridge
 //!               writes meanwhile piles up in the 64 KiB pipe and then in the bridge)
 //!               svcexit (modes activate / bridgecmd): like pipelined, but instead of closing its side the
@@ -789,7 +791,32 @@ fn run_proxy(ctx: &Ctx, l: &[Sx]) -> Sx {
 
     let direct_mode = tag == "connect" || tag == "activate" || tag == "bridgecmd";
     let pipeline_payload = c.client == "pipelined" && (tag == "resolver" || tag == "bridge2");
-    let res = drive(&mut stdin, &coll, &c.frames, &c.payload, &c.client, true, pipeline_payload, &c.tail);
+    let mut res = drive(&mut stdin, &coll, &c.frames, &c.payload, &c.client, true, pipeline_payload, &c.tail);
+    if c.client == "sigcont" && res.end == "open" && !c.frames.last().map(|f| frame_flags(f).1).unwrap_or(false) {
+        // stop and continue the idle bridge (job control): its blocked reads and waits are interrupted
+        // (EINTR); it must go on serving
+        if let Some(pid) = guard.child.as_ref().map(|c| c.id() as i32) {
+            unsafe {
+                libc::kill(pid, libc::SIGSTOP);
+            }
+            std::thread::sleep(Duration::from_millis(30));
+            unsafe {
+                libc::kill(pid, libc::SIGCONT);
+            }
+            std::thread::sleep(Duration::from_millis(30));
+        }
+        let nonce2 = format!("m{}", std::process::id());
+        let mut m = sentinel_frame(&nonce2);
+        m.push(0);
+        if let Some(w) = stdin.as_mut() {
+            let _ = w.write_all(&m);
+        }
+        let needle = format!("\"sentinel\":\"{}\"", nonce2);
+        let seen = coll.wait(STEP_WAIT, |b| find_sub(b, needle.as_bytes()).map(|p| b[p..].contains(&0)).unwrap_or(false));
+        if !seen {
+            res.end = if coll.is_eof() { "closed" } else { "timeout" };
+        }
+    }
     let st = if c.client == "svcexit" {
         // the service goes away while the client keeps its side open: the bridge must stop by itself
         for f in &extra_pid_files {
@@ -836,6 +863,7 @@ fn run_proxy(ctx: &Ctx, l: &[Sx]) -> Sx {
     let (bridged_out, bridged_raw) = {
         let nonce = format!("n{}", std::process::id());
         let (b, _) = strip_sentinel(&coll.snapshot(), &nonce);
+        let (b, _) = strip_sentinel(&b, &format!("m{}", std::process::id()));
         let cut = std::cmp::min(res.boundary.unwrap_or(b.len()), b.len());
         (unapply_bytes(&sub, &b[..cut]), b[cut..].to_vec())
     };
@@ -1314,6 +1342,9 @@ impl Suite for ProxySuite {
             let mut client = *rng.pick(&["pipelined", "pipelined", "stepwise", "stepwise", "closeearly"]);
             if (mtag == "activate" || mtag == "bridgecmd") && rng.chance(1, 5) {
                 client = "svcexit";
+            }
+            if client == "pipelined" && rng.chance(1, 5) {
+                client = "sigcont";
             }
             let len = match rng.below(8) {
                 0 => 0,
